@@ -1,8 +1,10 @@
 #![allow(dead_code, unused_parens, unused_imports)]
 mod codec;
 mod engine;
+mod jail;
 mod mockfs;
 mod props;
+mod ptdrv;
 mod reqgen;
 mod transport;
 mod vfsdrv;
